@@ -288,7 +288,8 @@ def main(rep, tier):
     jobs += [dict(module="c10", func="kernel", kwargs=dict(spec=sp, depth=d), timeout=200) for sp, d in KERNEL_SPECS]
     jobs.append(dict(module="c10", func="from_files", kwargs={}, timeout=300))
     jobs.append(dict(module="c10", func="argv_channel", kwargs={}, timeout=300, max_fail_samples=40))
-    e2e = [dict(module="c01", func="e2e_factory", kwargs=dict(shape="registered", skip_default=False), timeout=300)]
+    e2e = [dict(module="c01", func="e2e_factory", kwargs=dict(shape="registered", skip_default=False), timeout=300),
+           dict(module="c01", func="e2e_factory", kwargs=dict(shape="strings", skip_default=False), timeout=300, max_fail_samples=60)]
     if tier == "thorough":
         e2e = [dict(module="c01", func="e2e_factory", kwargs=dict(shape=s.name, skip_default=False), timeout=600) for s in shapes_for(tier)]
     results = run_jobs(jobs + e2e)
@@ -312,7 +313,11 @@ def main(rep, tier):
             if not r.get("reproduced"):
                 rep.inconc(f"counterexample {cls} ({hname} {kws}) did not reproduce natively: {smp['info']} -> {r}")
                 continue
-            if hname == "e2e_factory" and "byte-identical" not in r.get("detail", "") and smp["kwargs"].get("shape") != "registered":
+            if smp["kwargs"].get("shape") == "strings":
+                from ..shapes import _TEXT_MENU
+
+                vals["input"] = ascii(_TEXT_MENU[smp["values"].get("text", 0)]) + " at position %s" % smp["values"].get("where")
+            if hname == "e2e_factory" and "byte-identical" not in r.get("detail", "") and smp["kwargs"].get("shape") not in ("registered", "strings"):
                 continue  # round-trip failures through the text belong to C01 and are reported there (registered types: here too)
             known = rep.match_finding(cls, vals)
             if known:
